@@ -333,6 +333,90 @@ theorem add_one_total (c : Cal) (a : Adj) (t : Int) :
   · have := loopUp_ge c.isHol c.addFuel (c.adjust a t + 1); omega
   · have := loopDown_le c.isHol c.addFuel (c.adjust a t - 1); omega
 
+/-! ### round i3 (review t3 §C05 improvement 2): the single-step path returns THE next / previous business day, unguarded -/
+
+/-- pigeonhole: among `x, x+7, …, x+7n` one day is not in a list of `n` days -/
+theorem exists_week_not_mem (x : Int) : ∀ (n : Nat) (l : List Int), l.length = n → ∃ i : Nat, i ≤ n ∧ x + 7 * (i : Int) ∉ l := by
+  intro n
+  induction n with
+  | zero => intro l hl; exact ⟨0, Nat.le_refl _, by rw [List.length_eq_zero_iff.mp hl]; simp⟩
+  | succ n ih =>
+    intro l hl
+    by_cases h : x + 7 * ((n + 1 : Nat) : Int) ∈ l
+    · obtain ⟨i, hi, hni⟩ := ih (l.erase (x + 7 * ((n + 1 : Nat) : Int))) (by rw [List.length_erase_of_mem h]; omega)
+      refine ⟨i, by omega, fun hmem => hni ?_⟩
+      exact (List.mem_erase_of_ne (by omega)).mpr hmem
+    · exact ⟨n + 1, Nat.le_refl _, h⟩
+
+/-- with one weekday outside the weekend there is a business day within `7·(#holidays + 1)` days after any day … -/
+theorem exists_isB_after (c : Cal) (hnd : NonDeg c) (r : Int) :
+    ∃ b, r ≤ b ∧ b < r + 7 * (c.hol.length + 1) ∧ c.isB b = true := by
+  obtain ⟨d, d0, d7, hd⟩ := hnd
+  obtain ⟨b0, h1, h2, h3⟩ := wd_hit_up r d d0 d7
+  obtain ⟨i, hi, hni⟩ := exists_week_not_mem b0 c.hol.length c.hol rfl
+  refine ⟨b0 + 7 * (i : Int), by omega, by omega, ?_⟩
+  have hw : wd (b0 + 7 * (i : Int)) = d := by unfold wd at *; omega
+  simp [Cal.isB, hw, hd, hni]
+
+/-- … and before it -/
+theorem exists_isB_before (c : Cal) (hnd : NonDeg c) (r : Int) :
+    ∃ b, b ≤ r ∧ r < b + 7 * (c.hol.length + 1) ∧ c.isB b = true := by
+  obtain ⟨d, d0, d7, hd⟩ := hnd
+  obtain ⟨b0, h1, h2, h3⟩ := wd_hit_down r d d0 d7
+  obtain ⟨i, hi, hni⟩ := exists_week_not_mem (b0 - 7 * (c.hol.length : Int)) c.hol.length c.hol rfl
+  refine ⟨b0 - 7 * (c.hol.length : Int) + 7 * (i : Int), by omega, by omega, ?_⟩
+  have hw : wd (b0 - 7 * (c.hol.length : Int) + 7 * (i : Int)) = d := by unfold wd at *; omega
+  simp [Cal.isB, hw, hd, hni]
+
+/-- **`add(t, 1)` is THE next business day after `adjust(t)`** — for every `t`, inside or beyond the calendar's range, whatever the
+holiday list (no `InRange` guard; only: the weekend leaves one weekday, without which the real loop never ends): it returns a
+business day strictly after `adjust(t)` and every day in between is a non-business day.  "Business day" is the statement's own
+predicate (`isB_spec`: neither a weekend day nor a listed holiday), not a table lookup. -/
+theorem add_one_next (c : Cal) (hnd : NonDeg c) (a : Adj) (t : Int) :
+    ∃ r, c.add a t 1 = .ok r ∧ c.isB r = true ∧ c.adjust a t < r ∧
+      ∀ b, c.adjust a t < b → b < r → c.isB b = false := by
+  refine ⟨loopUp c.isHol c.addFuel (c.adjust a t + 1), by simp [Cal.add, Cal.addT], ?_, ?_, ?_⟩
+  · obtain ⟨b, b1, b2, bB⟩ := exists_isB_after c hnd (c.adjust a t + 1)
+    have hb : c.isHol b = false := by rw [isHol_eq_not_isB, bB]; rfl
+    have := (loopUp_stops c.isHol c.addFuel (c.adjust a t + 1) b b1 (by unfold Cal.addFuel; omega) hb).2
+    rw [isHol_eq_not_isB] at this
+    simpa using this
+  · have := loopUp_ge c.isHol c.addFuel (c.adjust a t + 1); omega
+  · intro b h1 h2
+    have := loopUp_skipped c.isHol c.addFuel (c.adjust a t + 1) b (by omega) h2
+    rw [isHol_eq_not_isB] at this
+    simpa using this
+
+/-- mirror image: `add(t, -1)` is THE previous business day before `adjust(t)` -/
+theorem add_one_prev (c : Cal) (hnd : NonDeg c) (a : Adj) (t : Int) :
+    ∃ r, c.add a t (-1) = .ok r ∧ c.isB r = true ∧ r < c.adjust a t ∧
+      ∀ b, r < b → b < c.adjust a t → c.isB b = false := by
+  refine ⟨loopDown c.isHol c.addFuel (c.adjust a t - 1), by simp [Cal.add, Cal.addT], ?_, ?_, ?_⟩
+  · obtain ⟨b, b1, b2, bB⟩ := exists_isB_before c hnd (c.adjust a t - 1)
+    have hb : c.isHol b = false := by rw [isHol_eq_not_isB, bB]; rfl
+    have := (loopDown_stops c.isHol c.addFuel (c.adjust a t - 1) b b1 (by unfold Cal.addFuel; omega) hb).2
+    rw [isHol_eq_not_isB] at this
+    simpa using this
+  · have := loopDown_le c.isHol c.addFuel (c.adjust a t - 1); omega
+  · intro b h1 h2
+    have := loopDown_skipped c.isHol c.addFuel (c.adjust a t - 1) b (by omega) h1
+    rw [isHol_eq_not_isB] at this
+    simpa using this
+
+/-- the result of `add_one_next` is unique: two business days `r, r'` after `s` with no business day strictly between `s` and
+each of them are equal — so the theorem pins the VALUE of `add(t, 1)`, not just a property of it -/
+theorem next_bday_unique (c : Cal) (s r r' : Int) (hr : c.isB r = true) (hr' : c.isB r' = true) (h : s < r) (h' : s < r')
+    (hn : ∀ b, s < b → b < r → c.isB b = false) (hn' : ∀ b, s < b → b < r' → c.isB b = false) : r = r' := by
+  rcases Int.lt_trichotomy r r' with hlt | heq | hgt
+  · have := hn' r h hlt; rw [hr] at this; cases this
+  · exact heq
+  · have := hn r' h' hgt; rw [hr'] at this; cases this
+
+/-- `NonDeg` is satisfiable and the theorem bites beyond the range end: in `janEnd` (the calendar of `add_paths_split`, where the
+table lookup raises `KeyError`) the single step from Fri 28 Jan 2000 lands on Wed 2 Feb 2000, past `t1` -/
+example : NonDeg janEnd := ⟨0, by decide, by decide, by decide⟩
+example : janEnd.add .f 730147 1 = .ok 730152 ∧ janEnd.isB 730152 = true := ⟨by rfl, by rfl⟩
+
 /-! ### the guard is exact on the table path, and what it says by day-by-day counting -/
 
 /-- the CONVERSE of `add_spec` on the table path: for `|n| ≥ 2` the lookup `add(t, n)` returns (does not raise `KeyError`)
